@@ -692,6 +692,78 @@ template <typename T>
     return static_cast<bool>(opt);
 }
 
+/// Compares opt with a nullopt.
+///
+/// Equivalent to when comparing to an optional that does not contain a value.
+///
+/// \relates optional
+/// \ingroup optional
+template <typename T>
+[[nodiscard]] constexpr auto operator<=(optional<T> const& opt, etl::nullopt_t /*unused*/) noexcept -> bool
+{
+    return not opt;
+}
+
+/// Compares opt with a nullopt.
+///
+/// Equivalent to when comparing to an optional that does not contain a value.
+///
+/// \relates optional
+/// \ingroup optional
+template <typename T>
+[[nodiscard]] constexpr auto operator<=(etl::nullopt_t /*unused*/, optional<T> const& /*opt*/) noexcept -> bool
+{
+    return true;
+}
+
+/// Compares opt with a nullopt.
+///
+/// Equivalent to when comparing to an optional that does not contain a value.
+///
+/// \relates optional
+/// \ingroup optional
+template <typename T>
+[[nodiscard]] constexpr auto operator>(optional<T> const& opt, etl::nullopt_t /*unused*/) noexcept -> bool
+{
+    return static_cast<bool>(opt);
+}
+
+/// Compares opt with a nullopt.
+///
+/// Equivalent to when comparing to an optional that does not contain a value.
+///
+/// \relates optional
+/// \ingroup optional
+template <typename T>
+[[nodiscard]] constexpr auto operator>(etl::nullopt_t /*unused*/, optional<T> const& /*opt*/) noexcept -> bool
+{
+    return false;
+}
+
+/// Compares opt with a nullopt.
+///
+/// Equivalent to when comparing to an optional that does not contain a value.
+///
+/// \relates optional
+/// \ingroup optional
+template <typename T>
+[[nodiscard]] constexpr auto operator>=(optional<T> const& /*opt*/, etl::nullopt_t /*unused*/) noexcept -> bool
+{
+    return true;
+}
+
+/// Compares opt with a nullopt.
+///
+/// Equivalent to when comparing to an optional that does not contain a value.
+///
+/// \relates optional
+/// \ingroup optional
+template <typename T>
+[[nodiscard]] constexpr auto operator>=(etl::nullopt_t /*unused*/, optional<T> const& opt) noexcept -> bool
+{
+    return not opt;
+}
+
 /// \brief Compares opt with a value. The values are compared (using the
 /// corresponding operator of T) only if opt contains a value. Otherwise, opt is
 /// considered less than value. If the corresponding two-way comparison
